@@ -152,7 +152,7 @@ def gen_history(seed, tier, classes=None, weights=None, n_ops=(6, 16),
                 max_handles=3, pre_p=0.4, dmax=6, fresh_p=0.0, dataset_kinds=None,
                 unknown=False, verbose_p=0.15, extras_p=0.5, share_p=0.3,
                 classifier_bias=1, cp_fit_p=0.25, cp_invalid_p=0.0, calib_invalid_p=0.25,
-                store_bias=1, tiny_scale_p=0.0, wide_p=0.0, grid_p=0.0, failfirst_p=0.05, crash_sweep_p=0.0, buffer_p=0.0, view_p=0.0, int_rows_p=0.0, int_dtype_p=0.0, one_class_p=0.0):
+                store_bias=1, tiny_scale_p=0.0, wide_p=0.0, grid_p=0.0, failfirst_p=0.05, crash_sweep_p=0.0, buffer_p=0.0, view_p=0.0, int_rows_p=0.0, int_dtype_p=0.0, one_class_p=0.0, calib_other_p=0.0):
   r = substream(seed, "hist")
   if wide_p and substream(seed, "hist-wide").random() < wide_p:
     return gen_wide_history(seed)
@@ -411,7 +411,12 @@ def gen_history(seed, tier, classes=None, weights=None, n_ops=(6, 16),
                       m=r.randint(4, 12), noise=r.choice([0, 0.2, 0.5]),
                       dups=r.random() < 0.4, cp=gen_cp(r, inv),
                       via="indices" if (s.pre and r.random() < 0.5) else "formed"))
-      if not inv and r.random() < 0.25:
+      if calib_other_p and r.random() < calib_other_p and len(dkeys) > 1:
+        # validation pairs from another dataset (possibly of another width: then the
+        # call is rejected - and must leave the fitted model as it was)
+        ops[-1]["data"] = r.choice([k_ for k_ in dkeys if k_ != s.fit_data] or dkeys)
+        ops[-1]["via"] = "formed"
+      elif not inv and r.random() < 0.25:
         ops[-1]["in_fit_buffers"] = True
         if s.pre:
           ops[-1]["via"] = "indices"
